@@ -81,8 +81,12 @@ class C17(XsProp):
                 body = '#( %s #)' % core
             elif form < 0.87:
                 body = '#( 3 0 do I 2 == if %s then loop #)' % core
-            elif form < 0.9:
-                body = rng.choice(['#( true if %s then #)', '#( [ 7 %s ] #)', '#( : mw %s ; mw #)', '[ #( %s #) ]']) % core
+            elif form < 0.93:
+                body = rng.choice(['#( true if %s then #)', '#( [ 7 %s ] #)', '#( : mw %s ; mw #)', '[ #( %s #) ]',
+                                   # a nested block (or injected text) was compiled and closed inside the block before the culprit
+                                   # (family added after round 11: stale debug-map entries of the closed inner block)
+                                   '#( #( 1 2 + #) drop %s #)', '#( 5 #( 1 #) #( 2 3 #) drop drop drop drop %s #)', '#( #( 1 #) drop : mw %s ; mw #)',
+                                   '#( #( 1 #) drop 2 0 do %s loop #)', '#( "1 2 +" ~) drop %s #)' if False else '#( #( 7 8 9 #) drop drop drop true if %s then #)']) % core
             else:
                 body = ': g 2 0 do %s loop ; g' % core
         text = pre + body
